@@ -24,18 +24,23 @@ CONSTANTS NF,       \* fonts per document
 \* (operators with a parameter: TLC evaluates a parameterless definition only once)
 Rnd(n, salt) == RandomElement(1..n)
 Item(j) == [slot |-> Rnd(NSlots, j), tv |-> Rnd(NTexts, j)]
+\* a Show also says how the one TextShowGlyphs call is decorated: rises = number of
+\* positions at which the text rise changes (each ends the TJ array under construction),
+\* kern = 1 none / 2 some / 3 many glyph advances adjusted (numbers inside the TJ array)
 RandomStep(i) == LET f == Rnd(NF, i)
-                 IN IF Rnd(3, i) = 1 THEN [op |-> "enc", f |-> f, items |-> <<Item(i)>>]
-                    ELSE [op |-> "show", f |-> f, items |-> [j \in 1..Rnd(MaxShow, i) |-> Item(j)]]
-ShowAll == [f \in 1..NF |-> [op |-> "showall", f |-> f, items |-> <<>>]]
+                 IN IF Rnd(3, i) = 1 THEN [op |-> "enc", f |-> f, items |-> <<Item(i)>>, rises |-> 0, kern |-> 1]
+                    ELSE [op |-> "show", f |-> f, items |-> [j \in 1..Rnd(MaxShow, i) |-> Item(j)],
+                          rises |-> Rnd(4, i) - 1, kern |-> Rnd(3, i)]
+ShowAll == [f \in 1..NF |-> [op |-> "showall", f |-> f, items |-> <<>>, rises |-> 0, kern |-> 1]]
 Walk(n) == [kind |-> "walk", steps |-> [i \in 1..Steps |-> RandomStep(i)] \o ShowAll]
 \* a sweep: one font gets fresh slots in order, eight per step, the other fonts interleave at random
 SweepStep(i, f) == IF i % 3 = 0 THEN RandomStep(i)
                    ELSE [op |-> IF i % 3 = 1 THEN "show" ELSE "enc", f |-> f,
-                         items |-> [k \in 1..8 |-> [slot |-> ((8 * i + k) % SweepTo) + 1, tv |-> 1 + (i % NTexts)]]]
+                         items |-> [k \in 1..8 |-> [slot |-> ((8 * i + k) % SweepTo) + 1, tv |-> 1 + (i % NTexts)]],
+                         rises |-> i % 4, kern |-> 1 + (i % 3)]
 \* "fill": Encode fresh pairs of the font until it has no code left (EncodeNew steps; simple fonts)
 Sweep(n) == [kind |-> "sweep", steps |-> [i \in 1..((SweepTo * 3) \div 16 + 4) |-> SweepStep(i, 1)]
-                                          \o <<[op |-> "fill", f |-> 1, items |-> <<>>]>> \o ShowAll]
+                                          \o <<[op |-> "fill", f |-> 1, items |-> <<>>, rises |-> 0, kern |-> 1]>> \o ShowAll]
 ASSUME ndJsonSerialize(IOEnv.OUT, [i \in 1..(NWalks + NSweeps) |-> IF i <= NWalks THEN Walk(i) ELSE Sweep(i)])
 VARIABLE x
 Init == x = 0
